@@ -35,8 +35,8 @@ impl FileCfg {
     }
 }
 
-pub const BLOCK_SIZES: [Option<usize>; 8] =
-    [None, Some(0), Some(1), Some(1023), Some(1024), Some(1025), Some(2048), Some(4096)];
+pub const BLOCK_SIZES: [Option<usize>; 9] =
+    [None, Some(0), Some(1), Some(1023), Some(1024), Some(1025), Some(2048), Some(4096), Some(usize::MAX)];
 pub const INTERVALS: [Option<usize>; 4] = [None, Some(1), Some(2), Some(3)];
 pub const LEVELS: [u8; 7] = [0, 1, 2, 3, 4, 254, 255];
 
